@@ -3,7 +3,12 @@ import random
 
 COSTS = [(1, 1, 2, 2), (1, 3, 2, 2), (3, 1, 2, 2), (1, 1, .5, 3), (1, 1, 3, .5),
          (2, 1, 5, 0), (1, 2, 0, 0), (1, 1, 0, 0), (1, 1, 0, 1), (1, 1, .1, .1),
-         (5, 1, 1, 1), (1, 1, 100, 100), (1, 1, 10, 1), (2, 5, 7, 3), (4, 1, 8, 8), (1, 1, 1, 10)]
+         (5, 1, 1, 1), (1, 1, 100, 100), (1, 1, 10, 1), (2, 5, 7, 3), (4, 1, 8, 8), (1, 1, 1, 10),
+         # extreme ratios (integers, so the library's arithmetic stays exact): tolerance-based
+         # comparisons and "negligible" terms only show up here
+         (1, 10 ** 9, 2, 2), (10 ** 6, 1, 3, 3), (1, 1, 300, 300), (1, 2, 1000, 1000),
+         # tiny costs (binary fractions: exact in floating point): absolute roundings and epsilons
+         (2.0 ** -22, 2.0 ** -22, 2.0 ** -19, 2.0 ** -19)]
 TRAJ = ("maximum", "revolve")
 
 
@@ -86,6 +91,38 @@ def stream_specs(tier):
     yield from mixed_specs(tier)
     yield from twolevel_specs(tier)
     yield from revolve_specs(tier)
+
+
+def deep_specs():
+    """A few hundred configurations far outside the exhaustive boxes (thorough tier, and the quick tier
+    when the source of the package differs from the reference tree): sizes just beyond powers of two
+    and other thresholds a "fast path", a bounded cache or a fixed-size table would use (257, 513,
+    1025, 2200), long periods, many units.  Not exhaustive in any sense; one adjoint pass is run."""
+    for N in (257, 300, 1025, 2500):
+        yield ("SingleMemory", (), (), N)
+        yield ("SingleDisk", (), (("move_data", False),), N)
+        yield ("SingleDisk", (), (("move_data", True),), N)
+    for n in (65, 130, 257, 300, 520, 1030, 1100, 2200):
+        for (sr, sd) in ((0, 1), (0, 2), (0, 3), (5, 0), (2, 3)):
+            for tr in TRAJ:
+                yield ("Multistage", (n, sr, sd), (("trajectory", tr),), n)
+    for n in (65, 130, 257, 520, 600):
+        for s in (1, 2, 3, 17):
+            yield ("Mixed", (n, s), (("storage", "RAM" if s % 2 else "DISK"),), n)
+    for (period, N) in ((16, 40), (32, 100), (49, 50), (49, 99), (64, 130), (100, 257), (300, 601),
+                        (504, 504), (543, 600), (660, 1000), (10, 300), (3, 260)):
+        for b in (1, 2, 3):
+            for st in ("RAM", "DISK"):
+                yield ("TwoLevel", (period, b), (("binomial_storage", st), ("binomial_trajectory", TRAJ[b % 2])), N)
+    for c in ((1, 1, 2, 2), (1, 1, 10, 9), (1, 3, 60, 5), (.3, 1, 10, 8)):
+        for n in (35, 60, 120, 260):
+            for s in (1, 2, 3):
+                for cls in ("Revolve", "DiskRevolve", "PeriodicDiskRevolve"):
+                    yield (cls, (n, s) + tuple(c), (), n)
+        for (n, s, d) in ((34, 1, 10), (35, 1, 4), (60, 2, 7), (130, 3, 3), (260, 2, 5)):
+            yield ("HRevolve", (n, s, d) + tuple(c), (), n)
+    yield ("HRevolve", (520, 2, 3, 1, 1, 2, 2), (), 520)
+    yield ("Revolve", (120, 1, 1000, 1000, 2, 2), (), 120)
 
 
 def seeded_specs(seed, count, nmax=400):
